@@ -251,6 +251,7 @@ def doCtor (seg : List String) : Option (Nat × Nat × R (Option Mdl)) :=
   | ["cat.uniform", b, p, range] => do
       let B ← parseHex b; let P ← parseHex p
       let range ← parseHex range
+      let range := narrow U range   -- the harness reads it into a `usize`
       some (B, P, bindR (liftM (Uniform.new B P range)) (fun u => .val (some (.uniform u))))
   | ["cat.fast", kind, b, p, n, syms] => do
       let B ← parseHex b; let P ← parseHex p
